@@ -522,12 +522,12 @@ impl Property for C10 {
         vec![
             // widths 1..=8 of u8 and 1..=16 of u16, from 0..=24: every (to, len) in [0,24]^2
             Segment::enumerated("copy-exhaustive-u8-u16", (8 + 16) * 25, &[0xF0]),
-            Segment::random("copy", tier.pick(480_000, 16_000_000), &[0], 8, 40),
-            Segment::random("apply_in_place", tier.pick(240_000, 8_000_000), &[1], 8, 40),
+            Segment::random("copy", tier.pick(480_000, 8_000_000), &[0], 8, 40),
+            Segment::random("apply_in_place", tier.pick(240_000, 4_000_000), &[1], 8, 40),
             Segment::random("reset", tier.pick(80_000, 3_000_000), &[2], 8, 40),
             Segment::random("bitvec-bulk", tier.pick(80_000, 3_000_000), &[3], 8, 60),
-            Segment::random("try_chunks_mut", tier.pick(240_000, 8_000_000), &[4], 8, 40),
-            Segment::random("get_unaligned", tier.pick(160_000, 6_000_000), &[5], 8, 40),
+            Segment::random("try_chunks_mut", tier.pick(240_000, 4_000_000), &[4], 8, 40),
+            Segment::random("get_unaligned", tier.pick(160_000, 3_000_000), &[5], 8, 40),
             // the parallel variants split only above 2 * RAYON_MIN_LEN = 200000 words
             Segment::enumerated("parallel-variants-on-large-vectors", tier.pick(16, 96), &[0xF1]),
             Segment::enumerated("parallel-counts-above-2^33-ones-in-small-pools", tier.pick(2, 4), &[0xF2]),
